@@ -176,8 +176,13 @@ impl Property for C16 {
                 break;
             }
             let n = *r.pick(&names_v);
+            let same_pkg_vs: Vec<u32> = vss.iter().copied().filter(|v| w.vs_name(*v) == n).collect();
             let matcher = if r.chance(1, 2) {
                 "*".to_string()
+            } else if !same_pkg_vs.is_empty() && r.chance(1, 4) {
+                // a matcher that happens to be spelled like the display text of a captured version set of the
+                // same package (it matches by substring on solvable displays, i.e. usually nothing)
+                format!("vs{}", r.pick(&same_pkg_vs))
             } else {
                 match w.cands(n).first() {
                     Some(_) => {
